@@ -25,7 +25,7 @@ pub fn def16() -> PropDef {
     PropDef {
         info: PropInfo {
             id: "C16",
-            rule: "same instruction-stream generator as C15, half of the streams forced into the expressible/canonical class (assembler-expressible opcodes, unused fields zero, 32-bit immediates >= 0, any 64-bit value for lddw, byte-swap widths 16/32/64). The text is join(to_insn_vec().desc, newline) and, in a second stream, the captured stdout of disassemble(); long expressible programs of up to 2^15 (+4) slots (2^17 in the thorough tier) with wide loads at every kind of position go through both. Oracle: class 1 => assemble(text) == Ok(original bytes); other programs => if assemble() accepts the text the result equals the canonical form computed by the harness (same opcodes, same used-field values, unused fields cleared), an Err is fine. Non-trivial = class-1 program of >= 2 instructions, or a class-2 program the assembler accepted; distinct by hash.",
+            rule: "same instruction-stream generator as C15, half of the streams forced into the expressible/canonical class (assembler-expressible opcodes, unused fields zero, 32-bit immediates >= 0, any 64-bit value for lddw, byte-swap widths 16/32/64). The text is join(to_insn_vec().desc, newline) and, in a second stream, the captured stdout of disassemble(); long expressible programs of up to 2^17 (+4) slots (2^18 in the thorough tier) with wide loads at every kind of position go through both. Oracle: class 1 => assemble(text) == Ok(original bytes); other programs => if assemble() accepts the text the result equals the canonical form computed by the harness (same opcodes, same used-field values, unused fields cleared), an Err is fine. Non-trivial = class-1 program of >= 2 instructions, or a class-2 program the assembler accepted; distinct by hash.",
             assumptions: &["canonical form = harness/vrun/src/isa.rs::uses_of table"],
         },
         run: run16,
@@ -613,8 +613,8 @@ fn run16(ctx: &Ctx) {
     });
     // long expressible programs: "of any length"
     ctx.shrink_iters.set(100);
-    let cases = ctx.share(ctx.tier.pick(480, 9_600));
-    ctx.search("long", "long", cases, long_spec(ctx.tier.pick(15, 17) as u32), |spec, want_case| {
+    let cases = ctx.share(ctx.tier.pick(320, 4_800));
+    ctx.search("long", "long", cases, long_spec(ctx.tier.pick(17, 18) as u32), |spec, want_case| {
         let v = check16_long(spec);
         if !want_case {
             let mut st = ctx.stats();
